@@ -23,8 +23,9 @@ EXPLANATION = (
     "the multiplier (expressions evaluated on sampled gcdx outputs), so row-swap counting gives the exact determinant sign; the two row-echelon "
     "twins agree structurally. Also decided (round 7): the residue class operators hand the integer operation of the same name on the stored values to "
     ".into() (expressions evaluated), / is * inverse(); inverse() is the extended Euclid on (P, value) (invariant t*value = r mod P by induction on sampled states, simultaneous "
-    "update, exit at r1 == 0, r == 1 asserted); the dense matrix primitives + - * transpose of VecMatrix and Matrix have the textbook element formulas over full ranges. NOT decided: exact determinant values in general, null-space dimension, completeness of solve, p-adic lifting and "
-    "rational reconstruction, overflow.")
+    "update, exit at r1 == 0, r == 1 asserted); the dense matrix primitives + - * transpose of VecMatrix and Matrix have the textbook element formulas over full ranges; rational_reconstruction keeps u1 = sign*s*v1, u = -sign*s*v (mod h) and stops at u1^2 <= h; "
+    "the p-adic lifting round of modular_solver::solve preserves a*s + p*b (update expressions evaluated on scalar samples with x any solution of a*x = b mod P), "
+    "updates the modulus after the solution, and every entry is reconstructed from (s[i][j], p). NOT decided: exact determinant values in general, null-space dimension, completeness of solve, that the number of lifting rounds suffices (Hadamard bound: only its operands are checked), overflow.")
 TRUSTED = ["rustc MIR lowering (dev profile)", "A2 i64::rem_euclid(x, P) lies in [0, P-1] for P > 0", "A7 primality by trial division in the checker",
            "weak criterion for the pivot bound: an upper bound on the row counter dominates; equality with the row count is read off the guard term"]
 ASSUMPTIONS = ["PrimeResidueClass<P> is only instantiated with P >= 2 (checked for every concrete instantiation found in non-test code)"]
@@ -67,6 +68,7 @@ def run(ctx):
     modular_inverse(ctx, g)
     matrix_ops(ctx, g)
     rational_reconstruction_contract(ctx, g)
+    padic_lifting(ctx, g)
     residues(ctx)
     modulus(ctx)
     pivot(ctx)
@@ -486,6 +488,115 @@ def rational_reconstruction_contract(ctx, g):
                         badx = "the loop is not left exactly when u1^2 <= h (u1 = %d, h = 101: %s)" % (v, vals)
         ctx.ob("T7-rational-reconstruction", b.name, "exit", "ok" if nx >= 1 and not badx else "violation",
                "the loop ends exactly when u1^2 <= h (numerator below sqrt(h))" if nx >= 1 and not badx else (badx or "no loop exit"))
+
+
+def padic_lifting(ctx, g):
+    """Dixon's p-adic lifting in modular_solver::solve.  With c = a^-1 mod P every round takes x = c * b mod P, adds x * p to the solution, multiplies
+    the modulus p by P and replaces the residual b by (b - a * x) / P (an exact division, because a * x = b mod P).  The exact identity
+        a * s + p * b  =  b0
+    is preserved (decided by evaluating the update expressions on sampled scalar states with x any solution of a * x = b mod P), so after k rounds
+    a * s = b0 (mod P^k); every entry is then reconstructed from (s[i][j], p)"""
+    import random
+    ctx.clauses.append("p-adic lifting: x = c * b mod P with c = a^-1 mod P; s += x * p (old p), p *= P, b = (b - a * x) / P; a * s + p * b is invariant; result[i][j] = rational_reconstruction(s[i][j], p) for all entries (T7)")
+    b = ctx.body("geometry::modular_solver::solve")
+    ctx.scan([b])
+    A, B0 = ("param", 1, b.debug.get(1, "")), ("param", 2, b.debug.get(2, ""))
+    full = lambda t: map_term(t, lambda y: norm(b.local_origin(y[1]), g) if y[0] == "local" and b.is_stable_local(y[1]) else None)
+    TO = "geometry::vec_matrix::VecMatrix::<T>::to"
+    a_t = ("call", TO, (A,))
+    bad = None
+    loops = natural_loops(b)
+    muls = [(bi, [strip(norm(b.origin(x), g)) for x in t["args"]]) for bi, t in b.calls("MulAssign::mul_assign")]
+    rr = [(bi, [strip(norm(b.origin(x), g)) for x in t["args"]]) for bi, t in b.calls("modular_solver::rational_reconstruction")]
+    if len(muls) != 1 or len(rr) != 1 or muls[0][1][0][0] != "local":
+        bad = "not one `p *= prime` and one rational_reconstruction call"
+    else:
+        p = muls[0][1][0]
+        prime = strip(full(muls[0][1][1]))
+        Pv = eval_int(strip(prime[2][0])) if is_call(prime, "From::from") else None
+        s = strip(rr[0][1][0])
+        ix = as_index(s)
+        s = as_index(ix[0])[0] if ix and as_index(ix[0]) else None
+        if Pv is None or not is_prime(Pv):
+            bad = "the modulus is not multiplied by a prime constant: %s" % show(prime, 1)[:40]
+        elif s is None or s[0] != "local" or rr[0][1][1] != p:
+            bad = "the entries are not reconstructed from (s[i][j], p)"
+    if not bad:
+        lb = None
+        for h_, bl_ in loops:
+            if muls[0][0] in bl_:
+                lb = set(bl_)
+        sd = [(dbb, strip(full(norm(d, g)))) for dbb, d in b.all_defs_origins(s[1])]
+        s_in = [(dbb, d) for dbb, d in sd if lb and dbb in lb]
+        s_out = [d for dbb, d in sd if not (lb and dbb in lb)]
+        pd = [strip(full(norm(d, g))) for dbb, d in b.all_defs_origins(p[1])]
+        if lb is None or len(s_in) != 1 or len(s_out) != 1 or len(pd) != 1:
+            bad = "s and p are not initialised once and updated once per round"
+        else:
+            # the residual: the multi-defined local under `to(..)` in x = to(c * to(b))
+            su = strip(fold_std_ops(s_in[0][1]))
+            xs = [y for y in subterms(su) if isinstance(y, tuple) and y and is_call(y, TO) and strip(fold_std_ops(y[2][0]))[0] == "binop"]
+            if not xs:
+                bad = "the digit x = (c * b.to()).to() was not found in the update of s"
+            else:
+                xt = xs[0]
+                prod = strip(fold_std_ops(xt[2][0]))
+                cc, bt = strip(prod[2]), strip(prod[3])
+                okc = prod[1] == "Mul" and cc[0] == "field" and cc[1][0] == "variant" and is_call(strip(cc[1][1]), "VecMatrix::<T>::inverse") and strip(strip(cc[1][1])[2][0]) == a_t
+                res = strip(bt[2][0]) if is_call(bt, TO) else None
+                if not okc or res is None or res[0] != "local":
+                    bad = "the digit is not c * b (mod P) with c = inverse(a mod P): %s" % show(prod, 1)[:80]
+                else:
+                    X = ("local", -9, "x")
+                    subx = lambda t: map_term(t, lambda y: X if y == xt else None)
+                    rd = [(dbb, strip(full(norm(d, g)))) for dbb, d in b.all_defs_origins(res[1])]
+                    r_in = [(dbb, d) for dbb, d in rd if dbb in lb]
+                    r_out = [d for dbb, d in rd if dbb not in lb]
+                    lit = lambda t: map_term(t, lambda y: y[2][0] if is_call(y, "From::from") and len(y[2]) == 1 and strip(y[2][0])[0] == "int" else None)
+                    if len(r_in) != 1 or r_out != [("call", TO, (B0,))]:
+                        bad = "the residual is not b.to() updated once per round"
+                    elif eval_int(lit(pd[0])) != 1 or not is_call(s_out[0], "VecMatrix::<T>::new"):
+                        bad = "the lifting does not start from s = 0, p = 1"
+                    elif not b.dominates(s_in[0][0], muls[0][0]):
+                        bad = "`p *= prime` does not come after the update of s in the round (s must take x * p with the OLD modulus)"
+                    else:
+                        s_up = strip(fold_std_ops(lit(subx(su))))
+                        r_up = strip(fold_std_ops(lit(subx(strip(fold_std_ops(r_in[0][1]))))))
+                        rnd = random.Random(3)
+                        n = 0
+                        Q = 10007      # a small stand-in prime for the evaluation (the identity is polynomial in P)
+                        r_up_q = map_term(r_up, lambda y: ("int", Q) if y == ("int", Pv) else None)
+                        for _ in range(300):
+                            av = rnd.randint(1, 500)
+                            if av % Q == 0:
+                                continue
+                            cv = pow(av, -1, Q)
+                            sv, pv, bv = rnd.randint(-10 ** 6, 10 ** 6), Q ** rnd.randint(0, 3), rnd.randint(-10 ** 6, 10 ** 6)
+                            xv = (cv * bv) % Q
+                            env = {s: sv, p: pv, res: bv, X: xv, a_t: av}
+                            ns, nb = eval_term_env(s_up, env), eval_term_env(r_up_q, env)
+                            if ns is None or nb is None:
+                                bad = "the update expressions cannot be evaluated: %s" % (show(s_up, 1)[:50] if ns is None else show(r_up_q, 1)[:60])
+                                break
+                            n += 1
+                            if (bv - av * xv) % Q == 0 and nb * Q != bv - av * xv:
+                                bad = "the residual is not replaced by (b - a * x) / P: from b = %d, a = %d, x = %d, P = %d it becomes %d" % (bv, av, xv, Q, nb)
+                            elif av * ns + (pv * Q) * nb != av * sv + pv * bv:
+                                bad = "a * s + p * b is not preserved by a round: (s, p, b) = (%d, %d, %d), a = %d, x = %d gives s = %d, b = %d" % (sv, pv, bv, av, xv, ns, nb)
+                            if bad:
+                                break
+                        if not bad and n == 0:
+                            bad = "nothing evaluated"
+                        if not bad:
+                            # all entries reconstructed
+                            i_t, j_t = strip(as_index(ix[0])[1]), strip(ix[1])
+                            ri, rj = loop_range_of_payload(b, i_t, g), loop_range_of_payload(b, j_t, g)
+                            okr = ri and rj and eval_int(ri[0]) == 0 and eval_int(rj[0]) == 0 and not ri[2] and not rj[2] and \
+                                contains(ri[1], lambda y: y[0] == "field" and y[2] == "nr_rows") and contains(rj[1], lambda y: y[0] == "field" and y[2] == "nr_cols")
+                            if not okr:
+                                bad = "not every entry (i < rows, j < columns of b) is reconstructed"
+    ctx.ob("T7-padic-lifting", b.name, "round / reconstruction", "ok" if not bad else "violation",
+           "x = c * b mod P; s += x * p; then p *= P; b = (b - a * x) / P; a * s + p * b invariant on sampled states; every entry reconstructed from (s[i][j], p)" if not bad else bad)
 
 
 def _gcdx(a, b):
